@@ -194,9 +194,7 @@ class Statement(object):
         """
         try:
             self.code_pkg = self.operand.translate()
-            if self.code_pkg.additional_needs_resolution and not self.code_pkg.post_byte_choices:
-                raise OperandTypeError("[{}] a label offset requires PCR".format(self.operand.operand_string))
-            self.fixed_size = not (self.code_pkg.additional_needs_resolution or self.code_pkg.post_byte_choices)
+            self.fixed_size = not self.code_pkg.post_byte_choices
         except Exception as error:
             raise TranslationError(str(error), self)
 
@@ -312,6 +310,12 @@ class Statement(object):
                     raise TranslationError(str(error), self)
             else:
                 relative_address = statements[self.code_pkg.additional.int].code_pkg.address.int
+
+            if "PCR" not in self.operand.right:
+                # A label as the constant offset of a pointer register: the offset is the address itself
+                self.code_pkg.additional = NumericValue(relative_address, size_hint=4)
+                self.fit_operand_to_reserved_size()
+                return
 
             start_address = statements[this_index].code_pkg.address.int
             jump_amount = relative_address - start_address - self.code_pkg.size
